@@ -711,7 +711,26 @@ func lambdaBodyNeedsBraces(stmt ast.Node) bool {
 	case *ast.ReturnStatement, *ast.Comment:
 		return true
 	case *ast.InfixExpression:
-		return ast.Precedences[stmt.Value().Type()] < ast.LAMBDA
+		if ast.Precedences[stmt.Value().Type()] < ast.LAMBDA {
+			return true
+		}
+	}
+	// What the text of the body starts with: a map literal there (a=>({1:2})[1] prints as {1:2}[1]) would read
+	// back as a block.
+	for {
+		var left ast.Node
+		switch s := stmt.(type) {
+		case *ast.InfixExpression:
+			left = s.Left
+		case *ast.CallExpression:
+			left = s.Function
+		case *ast.IndexExpression:
+			left = s.Left
+		}
+		if left == nil {
+			break
+		}
+		stmt = left
 	}
 	t := stmt.Value().Type()
 	return t == token.LBRACE || t == token.LAMBDA
